@@ -133,7 +133,23 @@ def symcomp(I, st, e, it, mod):
     else:
         f = lambda k: tuple(z3.substitute(to_z3(x), (tau, to_z3(k, "int"))) if is_sym(x) else x for x in probe)
     r = new_symlist(st, n, f, kind=kind)
+    if kind == "array":
+        P = st.arr(probe)
+        deps = any(is_sym(x) and tau.get_id() in _term_ids(x) for x in P.shape)
+        if not deps:
+            st.cell(r)["__uniform_shape__"] = tuple(P.shape)     # every element has the same shape: np.array(list) is rectangular
     return r
+
+
+def _term_ids(e):
+    seen, todo = set(), [e]
+    while todo:
+        x = todo.pop()
+        if x.get_id() in seen:
+            continue
+        seen.add(x.get_id())
+        todo.extend(x.children())
+    return seen
 
 
 @ext("__map__", "map(f, xs) / pool.map(f, xs): [f(x) for x in xs] in input order (A7)")
